@@ -153,6 +153,39 @@ def flag_mask_fn(ctx, case):
     ctx.evaluations += cnt - 1
 
 
+MALFORMED = {'EMPTY': b'', 'SHORT63': None, 'LONG66': None, 'ZERO64': bytes(64), 'ONE': b'\x01'}
+
+
+def malformed_fn(ctx, case):
+    """signature lists containing empty, short, over-long and all-zero items: never true (an error or false), and in
+    particular a malformed item never lowers the number of signatures required"""
+    n, m = case
+    seed = ctx.seed
+    cache, f1, f2, seeds = setup(seed)
+    keypush = b''.join(push(refed.public_key(seeds[('L', i)])) for i in range(n))
+    good = {('L', i): refed.sign(seeds[('L', i)], f1 + f2) for i in range(n)}
+    bad = dict(MALFORMED)
+    bad['SHORT63'] = good[('L', 0)][:63]
+    bad['LONG66'] = good[('L', 0)] + b'\x00\x00'
+    toks = list(good) + list(bad)
+    cnt = 0
+    for seq in itertools.product(toks, repeat=m):
+        if not any(t in bad for t in seq):
+            continue
+        for allowed in (0, 1):
+            cnt += 1
+            sigpush = b''.join((push(good[t]) if t in good else (push(bad[t]) if bad[t] else b'\x03\x00')) for t in seq)
+            r, st, _ = run(sigpush + keypush + op('CHECK_MULTISIG') + bytes([allowed, m, n]), cache)
+            ctx.ran(); ctx.trans(m + n + 1)
+            got = 'raise' if r is not None else ('true' if st == [TRUE] else 'false' if st == [FALSE] else 'other')
+            ctx.state(('mal', n, m, seq, allowed))
+            ctx.outcome('malformed->%s' % got)
+            if got not in ('raise', 'false'):
+                ctx.violation({'op': 'CHECK_MULTISIG', 'kind': 'accepts' if got == 'true' else 'malformed result', 'why': 'malformed item'},
+                              f'n={n} m={m} sigs={seq} allowed={allowed}: got {got} {st}')
+    ctx.evaluations += max(cnt - 1, 0)
+
+
 def builder_fn(ctx, case):
     """make_multisig_lock + witnesses through run_auth_scripts"""
     n, m, perm = case
@@ -222,7 +255,10 @@ def blocks(tier, seed):
     # biggest cases first for load balance
     cases.sort(key=lambda c: -(len(tokens(c[0])) ** max(c[1] - 1, 0)))
     fcases = [(n, m, a) for (n, m) in ((1, 1), (2, 1), (2, 2)) for a in ALLOWED]
+    mcases = [(n, m) for n in (1, 2, 3) for m in range(1, n + 1)]
     return [
+        Block('malformed_items', mcases, malformed_fn, 'n <= 3, every signature sequence containing an empty / 1-byte / 63-byte / 66-byte / '
+              'all-zero item', nshards=len(mcases)),
         Block('flag_masks', fcases, flag_mask_fn, 'allowed-flags operand x flag byte on each of <=2 honest signatures x key and '
               'signature orders', nshards=len(fcases)),
         Block('sequences_x_keyorders', cases, case_fn,
